@@ -11,7 +11,8 @@ import os, random, json
 KEY_POOL = ["seq", "shot", "kind", "item", "dept", "step", "take", "rev", "stage", "part", "cut", "unit", "elem", "pass"]
 WORDS = ["alpha", "beta", "gamma", "delta", "omega", "red", "blue", "green", "north", "south", "east", "west",
          "lay", "rig", "fx", "comp", "art", "cam", "geo", "tex", "lgt", "sim"]
-EXTS = {"scenes": ["ma", "mb", "hip", "blend", "nk", "psd"], "caches": ["abc", "vdb", "fur", "json"], "movies": ["mp4", "mov", "avi"]}
+# (group names of DIFFERENT lengths: a leaf type's name suffix '<group>_file' is then not as long as every leaf key)
+EXTS = {"scenes": ["ma", "mb", "hip", "blend", "nk", "psd"], "cache": ["abc", "vdb", "fur", "json"], "movie_clips": ["mp4", "mov", "avi"]}
 DIGIT_PATTERNS = [("v", 3), ("r", 2), ("t", 4), ("n", 2)]
 
 
@@ -171,7 +172,9 @@ def write_package(spec, directory):
         for g in bt["groups"]:
             sid_templates.append(("%s__%s_file" % (b, g), full + "/{%s:%s}" % (E, g)))
         if spec.get("extrapolate_from_leaf"):
-            to_extrapolate.append("%s__%s_file" % (b, bt["groups"][-1]))
+            # (from a leaf type whose name suffix is NOT the leaf key, when the basetype has one)
+            gx = [g for g in bt["groups"] if g + "_file" != E]
+            to_extrapolate.append("%s__%s_file" % (b, (gx or bt["groups"])[-1]))
         else:
             sid_templates.append(("%s__%s" % (b, S), full))
             to_extrapolate.append("%s__%s" % (b, S))
